@@ -41,6 +41,7 @@ class Ctx:
         self.rng = rng or random.Random(0)
         self.notes = []
         self.cover = set()
+        self.fork_sites = getattr(stats, "fork_sites", None)
         self.side_obligations = []     # (name, goal, pc snapshot): loop-init / loop-step / loop-variant
 
     # -- naming ------------------------------------------------------------------------------
@@ -85,6 +86,9 @@ class Ctx:
             if can_t and can_f:
                 self.new_alternatives.append(self.decisions[:self.pos] + [False])
                 d = True
+                if self.fork_sites is not None:
+                    k = getattr(self, "site", None)
+                    self.fork_sites[k] = self.fork_sites.get(k, 0) + 1
             elif can_t:
                 d = True
             elif can_f:
